@@ -2,6 +2,7 @@
 package simcore
 
 import (
+	_ "verifsim/scen/c15"
 	_ "verifsim/scen/sel"
 	_ "verifsim/scen/c11"
 	_ "verifsim/scen/c12"
